@@ -104,9 +104,11 @@ def forbidden_everywhere(mods=None):
     for f, src in sorted(srcs.items()):
         code = re.sub(r'/-.*?-/', '', src, flags=re.S)
         code = re.sub(r'--.*', '', code)
-        for w in ['sorry', 'admit', 'native_decide', 'bv_decide', 'implemented_by', 'unsafe ', 'maxHeartbeats 0']:
+        for w in ['sorry', 'admit', 'native_decide', 'bv_decide', 'implemented_by', 'unsafe ']:
             if re.search(r'(?<![A-Za-z0-9_.])' + re.escape(w.strip()) + r'(?![A-Za-z0-9_])', code):
                 bad.append('%s in %s' % (w.strip(), f))
+        if re.search(r'maxHeartbeats\s+0\b', code):
+            bad.append('maxHeartbeats 0 in %s' % f)
         bad += ['%s in %s' % (a, f) for a in re.findall(r'^axiom\s+\S+', code, re.M)]
     return bad
 
@@ -121,8 +123,9 @@ def audit(prop, module=None):
     # forbidden constructs outside comments
     code = re.sub(r'/-.*?-/', '', src, flags=re.S)
     code = re.sub(r'--.*', '', code)
-    forbidden = [w for w in ['sorry', 'admit', 'native_decide', 'bv_decide', 'implemented_by', 'unsafe ', 'maxHeartbeats 0']
+    forbidden = [w for w in ['sorry', 'admit', 'native_decide', 'bv_decide', 'implemented_by', 'unsafe ']
                  if w in code]
+    forbidden += ['maxHeartbeats 0'] if re.search(r'maxHeartbeats\s+0\b', code) else []
     forbidden += re.findall(r'^axiom\s+\S+', code, re.M)
     # the namespace each theorem is declared in
     full_names = {}
@@ -399,9 +402,19 @@ class Verdict:
         if extra_cov:
             cov.update(extra_cov)
         cov.setdefault('samples', self.samples[:8] or ['(none)'])
+        # proof files listed in Proofs/.wip (being written; normally none) were left out of this run: say so in the evidence
+        wipf = os.path.join(LEAN, 'FancyModel', 'Proofs', '.wip')
+        wip = [l.strip() for l in open(wipf) if l.strip()] if os.path.exists(wipf) else []
+        if wip:
+            cov['proof_files_skipped_as_work_in_progress'] = wip
+            print('NOTE: proof files skipped as work in progress (lean/FancyModel/Proofs/.wip): %s' % ' '.join(wip))
         ev = collections.OrderedDict(
             property_id=self.prop, tier=self.tier, seed=self.seed, level=level, coverage=cov,
             assumptions=self.assumptions, wall_s=round(time.time() - self.t0, 2), violations=len(self.violations))
         ev['known_findings_reproduced'] = [k['id'] for _, k, _ in self.known_hits]
         json.dump(ev, open(os.path.join(VERIF, 'evidence', self.prop + '.json'), 'w'), indent=1, ensure_ascii=False)
+        if not self.violations:
+            print('OK property=%s tier=%s level=%s obligations=%s/%s evaluations=%s known_findings=%d wall=%ss' % (
+                self.prop, self.tier, level, cov.get('discharged'), cov.get('obligations'), cov.get('evaluations'),
+                len(self.known_hits), ev['wall_s']))
         return 1 if self.violations else 0
